@@ -400,8 +400,10 @@ C09(job) ==
       framesOf(k) == AllFrames(progOf(job.seq[k]), "")
       allcalls == [k \in 1..Len(rs) |-> rs[k].calls]
       ndOf(k, c) == NodeByName(FrameProg(framesOf(k), c.frame), c.node)
-      keyOf(k, c) == <<ndOf(k, c).fid, ndOf(k, c).outputs, ndOf(k, c).targets, <<ndOf(k, c).fallback>>, c.args>>
-      cacheable(k, c) == c.kind # "graph" /\ ndOf(k, c).cache
+      keyOf(k, c) == <<ndOf(k, c).fid, KindClass(ndOf(k, c)), ndOf(k, c).outputs, ndOf(k, c).targets, <<ndOf(k, c).fallback>>, c.args>>
+      \* (an interrupt invocation that PAUSES resolves nothing: there is no entry it could have stored)
+      cacheable(k, c) == /\ c.kind # "graph" /\ ndOf(k, c).cache
+                         /\ ~(ndOf(k, c).kind = "interrupt" /\ c.idx \in Names(ndOf(k, c).pause_at))
       okcall(k, c) == ~Fails(ndOf(k, c), c.idx, [i \in 1..Len(c.args) |-> <<"", c.args[i][1], c.args[i][2]>>])
   IN [ transparent |-> \A k \in 1..Len(rs) :
                           /\ rs[k].status = un(job.seq[k]).status
